@@ -12,6 +12,9 @@
 -/
 import ALV.Lemmas.C02Top
 import ALV.Lemmas.C02Stop
+import ALV.Lemmas.C02Chain
+import ALV.Lemmas.C02Round
+import ALV.Lemmas.C02Two
 import ALV.Common.Audit
 
 namespace ALV.Props.C02
@@ -423,13 +426,206 @@ theorem need_attack (n : Nat) (line : α → Nat → α) (xs : List α) (k : Nat
     (attackS n line).start.nread = 0 ∧ (attackS n line).need xs k = some (needAttack n k) :=
   ⟨rfl, hasNeed_attackS n line xs k hlen⟩
 
--- PENDING: the closed forms `needOfXChain` (composition of `needLimit`, `needTakewhile`,
--- `needIsliceStop` with `needOf`) equal the protocol run of `buildXChain` for every chain with
--- stopping stages; proved above for `limit` alone (7e) and for `S ▷ limit` (7f); the tie compares
--- the real code with BOTH sides on every case.
-def probe_chain_eq_spec_PENDING : Prop :=
-  ∀ (ds : List XDesc), (∀ d ∈ ds, d.Valid) → ∀ (n K k : Nat), k < K → needOfXChain ds K ≤ n →
-    ((chainProbe ds n K)[k]?).map (·.2) = some (needOfXChain ds (k + 1))
+/-! ## 8. Closed form of the protocol of EVERY stage with an exit test; chains with stopping stages -/
+
+/-- **C02.8a** (the protocol in closed form) for every stage, exit test, source and request number:
+request `k+1` delivers iff `k < |X.run xs|` (`run` = the plain loop on the source cut at the exit
+point, epilogue included), and the source has then been read
+`min (what the plain loop needs for k+1 outputs — everything if it cannot deliver them) (the exit point)`
+times.  Requests past the end are included (`K` is arbitrary). -/
+theorem probe_closed_form (X : StopStage ι ο σ) (xs : List ι) (K k : Nat) (hk : k < K) :
+    (X.probe xs K)[k]? =
+      some (decide (k < (X.run xs).length),
+            min ((X.base.need xs (k + 1)).getD xs.length) (X.cut xs)) :=
+  StopStage.probe_closed X xs K k hk
+
+/-- `StopStage.reqReads` (used in 8b–8d) is that pull counter as a function of the request number. -/
+theorem reqReads_is_probe (X : StopStage ι ο σ) (xs : List ι) (K k : Nat) (hk : k < K) :
+    ((X.probe xs K)[k]?).map (·.2) = some (X.reqReads xs (k + 1)) := by
+  rw [StopStage.probe_closed X xs K k hk]; rfl
+
+/-- **C02.8b** a consumer stage `T` on top of `X` (the exit test stays `X`'s): if `T` needs exactly
+`f k` items for `k` outputs, `X.comp T` reads for `k` requests what `X` reads for `f k`. -/
+theorem stop_comp_reads (X : StopStage ι π σ) (T : Stage π ο τ) [Inhabited π] (f : Nat → Nat)
+    (hT : ∀ (ys : List π) (k : Nat), f k ≤ ys.length → T.need ys k = some (f k))
+    (xs : List ι) (k : Nat) : (X.comp T).reqReads xs k = X.reqReads xs (f k) :=
+  StopStage.reqReads_comp X T (HasNeed.exact hT) xs trivial k
+
+/-- **C02.8c** a consumer that stops asking after `c` items (`.limit(c)`, `islice(·, c)`, the read
+loop of a stopping stage): `X.cap c` reads for `k` requests what `X` reads for `min k c` — never
+what a `(c+1)`-th item would cost. -/
+theorem stop_cap_reads (X : StopStage ι ο σ) (c : Nat) (xs : List ι) (k : Nat) :
+    (X.cap c).reqReads xs k = X.reqReads xs (min k c) ∧
+    (X.cap c).cut xs = min (X.cut xs) ((X.base.need xs c).getD xs.length) ∧
+    ((X.cap c).base.emit xs).length ≤ c :=
+  ⟨StopStage.reqReads_cap X c xs k, StopStage.cut_cap X c xs, StopStage.emit_cap_length X c xs⟩
+
+/-- **C02.8d** `islice(seq, start, stop, step)` (CPython `islice_next`): after `k` requests
+`needIsliceStop` items have been read — output `k` is item `start + (k-1)*step`; a drained islice
+has read `max start stop` items (also when `start > stop`: the skipped items ARE read), never more,
+however often it is asked. -/
+theorem islice_stop_probe (start stop step : Nat) (hstep : 0 < step) (xs : List α) (K k : Nat)
+    (hk : k < K) :
+    (((isliceX start stop step).probe xs K)[k]?).map (·.2) =
+      some (min (needIsliceStop start stop step (k + 1)) xs.length) ∧
+    (isliceX start stop step).cut xs = min (max start stop) xs.length := by
+  constructor
+  · rw [StopStage.probe_closed _ xs K k hk]
+    simp only [Option.map_some]
+    rw [reqReads_isliceX start stop step hstep]
+  · have := cutFrom_isliceX (α := α) start stop step hstep xs 0 start (Nat.zero_le _)
+    simp only [Nat.sub_zero] at this
+    exact this
+
+/-- **C02.8e** (chains with stopping stages, any depth, any source length, asked any number of times)
+the pull counter of the composed machine `buildXChain ds` after request `k+1` is the composed closed
+form `needOfXChain ds (k+1)` — capped by the length of the source.  This is exactly the pair
+(`model`, `spec`) the driver reports for the `probe` entry.  By induction on the chain with 8b/8c. -/
+theorem probe_chain_eq_spec_any_source (ds : List XDesc) (hv : ∀ d ∈ ds, d.Valid) (n K k : Nat)
+    (hk : k < K) :
+    ((chainProbe ds n K)[k]?).map (·.2) = some (min (needOfXChain ds (k + 1)) n) :=
+  chainProbe_reads ds hv n K k hk
+
+/-- the closed forms of valid chains are monotone in the number of requests -/
+theorem needOfXChain_mono (ds : List XDesc) (hv : ∀ d ∈ ds, d.Valid) (k k' : Nat) (hk : k ≤ k') :
+    needOfXChain ds k ≤ needOfXChain ds k' := ALV.C02.needOfXChain_mono ds hv hk
+
+/-- **C02.8f** (the statement that was PENDING in round 3) on a source long enough for `K` requests
+the protocol run of every valid chain with stopping stages IS the composed closed form. -/
+theorem probe_chain_eq_spec (ds : List XDesc) (hv : ∀ d ∈ ds, d.Valid) (n K k : Nat) (hk : k < K)
+    (hn : needOfXChain ds K ≤ n) :
+    ((chainProbe ds n K)[k]?).map (·.2) = some (needOfXChain ds (k + 1)) := by
+  rw [chainProbe_reads ds hv n K k hk]
+  have := ALV.C02.needOfXChain_mono ds hv (show k + 1 ≤ K by omega)
+  congr 1
+  omega
+
+/-- **C02.8g** which requests on a chain deliver: the first `chainXOutLen ds n` (the outputs of the
+chain consumed to its end), none after — the inner source lengths the driver uses are these. -/
+theorem chain_delivered (ds : List XDesc) (n K k : Nat) (hk : k < K) :
+    ((chainProbe ds n K)[k]?).map (·.1) = some (decide (k < chainXOutLen ds n)) :=
+  chainProbe_delivered ds n K k hk
+
+/-- **C02.8h** (twin) a chain WITHOUT stopping stage run as a `StopStage` chain (`chainProbe`, built
+from the source outwards) has the pull counters of the plain chain of sections 3–5 (`chainPulls`,
+built from the output inwards) wherever the source is long enough. -/
+theorem plain_chain_twin (ds : List Desc) (hv : ∀ d ∈ ds, d.Valid) (n K k : Nat) (hk : k < K)
+    (hn : needOfChain ds (k + 1) ≤ n) :
+    ((chainProbe (ds.map .plain) n K)[k]?).map (·.2) = (chainPulls ds n K)[k]? := by
+  have e : ∀ (l : List Desc) (m : Nat), needOfXChain (l.map .plain) m = needOfChain l m := by
+    intro l
+    induction l with
+    | nil => intro m; rfl
+    | cons d l ih => intro m; show needOf d (needOfXChain (l.map .plain) m) = _; rw [ih]; rfl
+  rw [model_eq_spec ds hv n K k hk hn,
+    chainProbe_reads (ds.map .plain) (by
+      intro d hd
+      obtain ⟨d', hd', rfl⟩ := List.mem_map.1 hd
+      exact hv d' hd') n K k hk, e]
+  congr 1
+  omega
+
+/-! ## 9. Rounding helpers of spelled counts, auxiliary-source closed forms -/
+
+/-- **C02.9a** audiolazy's `rint` (used by `take` / `peek` for a positive float count) is a nearest
+integer, `q - 1/2 < rint q ≤ q + 1/2`, and goes AWAY from zero on a tie (`take(2.5)` reads 3 items
+where `limit(2.5)` keeps 2). -/
+theorem rint_rounding (q : Rat) (z : Int) :
+    ((rintPos q : Rat) ≤ q + 1 / 2 ∧ q < (rintPos q : Rat) + 1 / 2) ∧
+    rintPos ((z : Rat) + 1 / 2) = z + 1 ∧ rintPos (z : Rat) = z :=
+  ⟨rintPos_near q, rintPos_tie z, rintPos_int z⟩
+
+/-- **C02.9b** what `take(n)` / `peek(n)` may read, by spelling: an int is `max(n, 0)`; a float is
+`rint(n)` when positive, else 0; `inf` is "everything" (no bound), `-inf` and `nan` are 0; a
+non-negative `Fraction` is refused with ValueError (islice wants an int); and an integer-valued
+float means the same as the int. -/
+theorem take_count (z : Int) (q : Rat) :
+    takeCount (.int z) = .ok (some z.toNat) ∧
+    takeCount (.float q) = .ok (some (if 0 < q then (rintPos q).toNat else 0)) ∧
+    takeCount (.inf false) = .ok none ∧ takeCount (.inf true) = .ok (some 0) ∧
+    takeCount .nan = .ok (some 0) ∧
+    takeCount (.frac q) = (if q < 0 then .ok (some 0) else .error "ValueError") ∧
+    takeCount (.float (z : Rat)) = takeCount (.int z) :=
+  ⟨rfl, rfl, rfl, rfl, rfl, rfl, (count_spelling_int z).1⟩
+
+/-- **C02.9c** `int(dur + .5)` (samples of `line` / attack / decay): `rint(dur)` for a float or
+Fraction, the int itself for an int (and for the float `z.0`), nothing below one half. -/
+theorem dur_len (z : Int) (q : Rat) :
+    durLen (.int z) = z.toNat ∧ durLen (.float q) = (rintPos q).toNat ∧
+    durLen (.frac q) = (rintPos q).toNat ∧ durLen (.float (z : Rat)) = durLen (.int z) ∧
+    (q < 1 / 2 → durLen (.float q) = 0) ∧
+    roundCount (.float (z : Rat)) = roundCount (.int z) :=
+  ⟨rfl, (durLen_law q).1, (durLen_law q).2.1, (count_spelling_int z).2.2, (durLen_law q).2.2,
+   (count_spelling_int z).2.1⟩
+
+/-- **C02.9d** the closed form `auxNeedLag1` the driver reports for a lag-1 auxiliary source is the
+`need` of both machines it is compared with: the step-source view of `resample` and the generic
+"one output up front, then one value per output" stage. -/
+theorem aux_lag1 (order : Nat) (steps : List Rat) (xs : List Unit) (k : Nat)
+    (hs : auxNeedLag1 k ≤ steps.length) (hx : auxNeedLag1 k ≤ xs.length) :
+    (rsStepS order).need steps k = some (auxNeedLag1 k) ∧
+    (padS [()] [] : Stage Unit Unit Unit).need xs k = some (auxNeedLag1 k) :=
+  ⟨hasNeed_rsStepS order steps k hs, hasNeed_padS [()] [] xs k hx⟩
+
+/-! ## 10. Two counted sources behind one object of the C level, one of which ENDS
+
+Stream binary operators on two streams, `imap`, `izip` are `map` / `zip` objects; `append`, `chain`,
+`Stream(a, b)` are `itertools.chain`; `izip_longest` is `zip_longest`.  `twoProbe step K (twoStart na nb)`
+lists for `K` requests (failed ones included) whether an output came and both pull counters. -/
+
+/-- **C02.10a** lock-step `map` / `zip` over sources of `na` and `nb` items, asked `K` times: request
+`k` delivers iff both sources have a `k`-th item; the FIRST source has been read `min k na` times —
+when the partner ends first that is one item more than the partner (the item is lost), and one more
+at every further request, because the C object does not remember that it has ended; the second source
+is read only when the first delivered.  Neither source is ever read more than `k` times. -/
+theorem mapzip_probe (na nb K k : Nat) (hk : k < K) :
+    (twoProbe mapzipDemand K (twoStart na nb))[k]? = some (needMapzip na nb (k + 1)) ∧
+    (needMapzip na nb (k + 1)).2.1 ≤ k + 1 ∧ (needMapzip na nb (k + 1)).2.2 ≤ k + 1 := by
+  refine ⟨?_, ?_, ?_⟩
+  · rw [twoProbe_mapzip_get K _ k hk]
+    simp only [twoStart, needMapzip, Nat.zero_add]
+    congr
+  · show min (k + 1) na ≤ k + 1; omega
+  · show min (k + 1) (min na nb) ≤ k + 1; omega
+
+/-- **C02.10b** the partner ends first (`nb < na`): the request that fails has read `nb + 1` items of
+the first source and `nb` of the partner; `j` requests later it is `min (nb + 1 + j) na`. -/
+theorem mapzip_partner_ends_first (na nb j : Nat) (h : nb < na) :
+    needMapzip na nb (nb + 1 + j) = (false, min (nb + 1 + j) na, nb) ∧
+    needMapzip na nb (nb + 1) = (false, nb + 1, nb) := by
+  unfold needMapzip
+  refine ⟨Prod.ext ?_ (Prod.ext ?_ ?_), Prod.ext ?_ (Prod.ext ?_ ?_)⟩ <;> simp <;> omega
+
+/-- **C02.10c** the first source ends first (`na ≤ nb`): the partner is never read further than the
+first source delivered, however often the stage is asked. -/
+theorem mapzip_first_ends_first (na nb k : Nat) (h : na ≤ nb) (hk : na ≤ k) :
+    (needMapzip na nb k).2 = (na, na) := by
+  unfold needMapzip
+  refine Prod.ext ?_ ?_ <;> simp <;> omega
+
+/-- **C02.10d** `chain(a, b)` / `Stream(a).append(b)` / `Stream(a, b)`: request `k` delivers iff
+`k ≤ na + nb`; the tail is not touched while the head lasts (`k ≤ na`: 0 reads — the rule `never` of
+the auxiliary-source table), then read once per output; the head is never asked for more than it has. -/
+theorem chain2_probe (na nb K k : Nat) (hk : k < K) :
+    (twoProbe chainDemand K (twoStart na nb))[k]? = some (needChain2 na nb (k + 1)) ∧
+    (k + 1 ≤ na → (needChain2 na nb (k + 1)).2.2 = 0) ∧
+    (needChain2 na nb (k + 1)).2.1 + (needChain2 na nb (k + 1)).2.2 ≤ k + 1 := by
+  refine ⟨?_, ?_, ?_⟩
+  · rw [twoProbe_chain_get K _ k hk]
+    simp only [twoStart, needChain2, Nat.zero_add]
+    congr
+  · intro h; show min (k + 1 - na) nb = 0; omega
+  · show min (k + 1) na + min (k + 1 - na) nb ≤ k + 1; omega
+
+/-- **C02.10e** `izip_longest(a, b)`: each source is read once per output while it lasts. -/
+theorem longest_probe (na nb K k : Nat) (hk : k < K) :
+    (twoProbe longestDemand K (twoStart na nb))[k]? = some (needLongest na nb (k + 1)) := by
+  rw [twoProbe_longest_get K _ k hk]
+  simp only [twoStart, needLongest, Nat.zero_add]
+  congr
+
+/-- construction reads nothing from either source -/
+theorem two_construction (na nb : Nat) : (twoStart na nb).ra = 0 ∧ (twoStart na nb).rb = 0 := ⟨rfl, rfl⟩
 
 /-! ## non-vacuity: hypotheses satisfiable on non-trivial inputs -/
 
@@ -493,6 +689,47 @@ example : (attackS 3 (fun (x : Nat) i => x + i)).pulls [7, 8, 9] 5 = [1, 1, 1, 2
     needAttack 3 5 = 3 ∧ needAttack 0 2 = 3 := by
   rw [pulls_eq]; decide
 example : needOfXChain [.plain (.skip 2), .limit 3, .plain (.blocks 2 2)] 2 = 5 := by decide
+/-- 8a instantiated on `takewhile`: three requests, the third fails having read the failing item -/
+example : (takewhileX 2).probe [1, 2, 3, 4, 5] 3 = [(true, 1), (true, 2), (false, 3)] ∧
+    ((takewhileX 2).run [1, 2, 3, 4, 5]).length = 2 ∧ (takewhileX 2).cut [1, 2, 3, 4, 5] = 3 ∧
+    (takewhileX 2).reqReads [1, 2, 3, 4, 5] 3 = 3 := by decide
+/-- 8b's hypothesis holds for a non-trivial consumer -/
+example : ∀ (ys : List Nat) (k : Nat), (if k = 0 then 0 else k + 2) ≤ ys.length →
+    (skipS 2).need ys k = some (if k = 0 then 0 else k + 2) := hasNeed_skipS 2
+example : ((limitX 4).comp (skipS 2)).reqReads [1, 2, 3, 4, 5, 6, 7] 1 = 3 ∧
+    ((limitX 4).cap 2).reqReads [1, 2, 3, 4, 5, 6, 7] 5 = 2 := by decide
+/-- 8d: `islice(·, 5, 3)` drained has read 5 items, `islice(·, 1, 6, 2)` reads 2, 4, 6 and stops -/
+example : needIsliceStop 5 3 1 1 = 5 ∧ needIsliceStop 1 6 2 2 = 4 ∧ needIsliceStop 1 6 2 9 = 6 ∧
+    (isliceX 1 6 2).cut [1, 2, 3, 4, 5, 6, 7, 8] = 6 := by decide
+/-- 8e/8f on a chain with all three stopping stages and plain stages in between -/
+example : (∀ d ∈ [XDesc.plain (.skip 1), .islice 1 9 2, .takewhile 2, .plain (.blocks 2 1), .limit 1],
+    d.Valid) ∧
+    needOfXChain [.plain (.skip 1), .islice 1 9 2, .takewhile 2, .plain (.blocks 2 1), .limit 1] 3 = 5 ∧
+    chainProbe [.plain (.skip 1), .islice 1 9 2, .takewhile 2, .plain (.blocks 2 1), .limit 1] 20 3 =
+      [(true, 5), (false, 5), (false, 5)] ∧
+    chainXOutLen [.plain (.skip 1), .islice 1 9 2, .takewhile 2, .plain (.blocks 2 1), .limit 1] 20 = 1 := by
+  decide +kernel
+/-- a source shorter than the closed form: the cap of 8e is reached -/
+example : chainProbe [.plain (.skip 1), .limit 5] 3 3 = [(true, 2), (true, 3), (false, 3)] ∧
+    needOfXChain [.plain (.skip 1), .limit 5] 3 = 4 := by decide +kernel
+example : chainProbe ([Desc.skip 2, .blocks 2 2].map .plain) 9 3 = [(true, 4), (true, 6), (true, 8)] ∧
+    chainPulls [.skip 2, .blocks 2 2] 9 3 = [4, 6, 8] := by
+  unfold chainPulls; rw [pulls_eq]; decide +kernel
+example : rintPos (5 / 2) = 3 ∧ rintPos (7 / 3) = 2 ∧ durLen (.float (5 / 2)) = 3 ∧
+    durLen (.float (1 / 4)) = 0 ∧ (takeCount (.float (5 / 2))).toOption = some (some 3) ∧
+    (takeCount (.frac (5 / 2))).toOption = none ∧ (takeCount (.float (-3))).toOption = some (some 0) ∧
+    (takeCount (.frac (-1 / 2))).toOption = some (some 0) := by
+  decide +kernel
+example : auxNeedLag1 4 = 3 ∧ (rsStepS 1).need [1/2, 1/2, 2] 4 = some 3 := by decide +kernel
+/-- 10a/10b: the partner (2 items) ends first — the first source is read a third, fourth, fifth time -/
+example : twoProbe mapzipDemand 6 (twoStart 5 2) =
+    [(true, 1, 1), (true, 2, 2), (false, 3, 2), (false, 4, 2), (false, 5, 2), (false, 5, 2)] ∧
+    twoProbe mapzipDemand 4 (twoStart 2 5) = [(true, 1, 1), (true, 2, 2), (false, 2, 2), (false, 2, 2)] := by
+  decide
+example : twoProbe chainDemand 5 (twoStart 2 5) =
+    [(true, 1, 0), (true, 2, 0), (true, 2, 1), (true, 2, 2), (true, 2, 3)] ∧
+    twoProbe longestDemand 4 (twoStart 1 3) = [(true, 1, 1), (true, 1, 2), (true, 1, 3), (false, 1, 3)] := by
+  decide
 
 end ALV.Props.C02
 
